@@ -626,6 +626,12 @@ class TaskScenario(ScenarioData):
                 if end_date:
                     # For ALAP, start from the last working slot BEFORE the end date
                     self.currentSlotIdx = self.project.dateToIdx(end_date) - 1
+                    # A deadline beyond the scheduling horizon cannot be met inside it (the search for
+                    # a working slot below would walk back into the horizon and the task would be
+                    # dated outside of it): same rule as for a start pinned after the project end
+                    if self.currentSlotIdx > self.project.dateToIdx(self.project["end"]):
+                        self.isRunAway = True
+                        return False
                     # Find the last working slot
                     # For effort tasks with allocations, check resource availability
                     # (respects resource timezone and working hours)
